@@ -52,6 +52,9 @@ func (c *underefChecker) VisitExpr(expr ast.Expr) {
 		}
 
 		if expr, ok := expr.X.(*ast.StarExpr); ok {
+			if c.isMethodOfDefinedPtr(n, expr) {
+				return
+			}
 			if c.checkStarExpr(expr) {
 				c.warnSelect(n)
 			}
@@ -67,6 +70,21 @@ func (c *underefChecker) VisitExpr(expr ast.Expr) {
 			}
 		}
 	}
+}
+
+// isMethodOfDefinedPtr reports whether sel is a method selected through
+// an explicit dereference of a value of a defined pointer type:
+//
+//	type ptr *T
+//	(*p).Method()
+//
+// Unlike fields, methods can't be selected from p directly.
+func (c *underefChecker) isMethodOfDefinedPtr(sel *ast.SelectorExpr, deref *ast.StarExpr) bool {
+	if _, ok := types.Unalias(c.ctx.TypeOf(deref.X)).(*types.Named); !ok {
+		return false
+	}
+	selection := c.ctx.TypesInfo.Selections[sel]
+	return selection != nil && selection.Kind() == types.MethodVal
 }
 
 func (c *underefChecker) isPtrRecvMethodCall(fn *ast.Ident) bool {
